@@ -1,20 +1,23 @@
 (* C05 — the case dispatcher.  A case line starts with the kind of component
    it was recorded from; the formats are documented in the Spec*.v files:
      1  dial limiter            (SpecLimiter.v)
+     2  dial worker loop        (SpecWorker.v)
    No proofs here. *)
 From Coq Require Import List ZArith Bool.
-From Verif Require Import lib.Wire c05.SpecLimiter.
+From Verif Require Import lib.Wire c05.SpecLimiter c05.SpecWorker.
 Import ListNotations.
 Local Open Scope Z_scope.
 
 Definition conform_case (l : list Z) : list Z :=
   match l with
   | 1 :: r => conform_lim_case r
+  | 2 :: r => conform_w_case r
   | _ => [ERR_MALFORMED; 0]
   end.
 
 Definition monitor_case (l : list Z) : list Z :=
   match l with
   | 1 :: r => monitor_lim_case r
+  | 2 :: r => monitor_w_case r
   | _ => [ERR_MALFORMED; 0]
   end.
